@@ -5,6 +5,10 @@ use super::generic;
 mod dct;
 mod transform;
 pub use transform::transform_varblocks;
+#[cfg(jxl_oxide_verif)]
+pub use transform::{verif_transform_sse2, verif_transform_sse41};
+#[cfg(jxl_oxide_verif)]
+pub(crate) use dct::dct_2d_x86_64_sse2 as verif_dct_2d_sse2;
 
 pub fn adaptive_lf_smoothing_impl(
     width: usize,
